@@ -452,6 +452,22 @@ def _emitted_head(ctx, fmt, ser):
     return head
 
 
+def _documented_extensions(ctx):
+    """{format: [extensions]} from the format table of docs/region_io.rst (rows `  <fmt>   .ext[, .ext]   <description>`)."""
+    import os
+    path = os.path.join(ctx.src.root, 'docs', 'region_io.rst')
+    out = {}
+    try:
+        with open(path) as fh:
+            for line in fh:
+                mt = re.match(r'^\s+(crtf|ds9|fits)\s+((?:\.\w+(?:,\s*)?)+)\s{2,}\S', line)
+                if mt:
+                    out[mt.group(1)] = [e.strip() for e in mt.group(2).split(',') if e.strip()]
+    except OSError:
+        pass
+    return out
+
+
 def r4(ctx):
     m = ctx.model
     for fmt in FORMATS:
@@ -465,6 +481,17 @@ def r4(ctx):
             ctx.bad(f'{ident.qualname}', 'extensions',
                     f'{fmt}: write extensions {wr} are not all read extensions {rd}',
                     ident.loc())
+        # the extensions the documentation promises for this format (docs/region_io.rst, format table) are identified
+        # for reading and for writing
+        doc = _documented_extensions(ctx).get(fmt)
+        ctx.need(doc, f'docs/region_io.rst:{fmt}', 'documented extensions not found')
+        miss = [(e, k) for e in doc for k, tab in (('read', rd), ('write', wr)) if e not in tab]
+        if miss:
+            ctx.bad(f'{ident.qualname}:documented extensions', 'undocumented-gap',
+                    f'{fmt}: the documentation lists the extensions {doc}, but {miss[0][0]!r} is not identified for {miss[0][1]} '
+                    f'(read {rd}, write {wr}): a file written or read with that name and no format= is not recognised', ident.loc())
+        else:
+            ctx.ok(f'{ident.qualname}:documented extensions', f'{doc} identified for read and write')
         # methodname dispatch uses the table of the same method
         for c in calls_in(ident.node):
             if (call_name(c) or '').endswith('.endswith') and c.args:
@@ -771,6 +798,26 @@ def r5b(ctx):
                 f'(method name, path) at positions ({mi}, {pi}) and get_identifiers takes the class', idf.loc())
     else:
         ctx.ok(idf.qualname, f'identifier(method={role["method"]}, path={role["path"]}); identifiers of {role["class"]}')
+    # the format returned is the format element of the matching registry key: its position is read from the key tuple
+    # built by register()
+    regf = m.method(reg, 'register')
+    ctx.need(regf is not None, 'RegionsRegistry.register', 'missing')
+    rparams = [a.arg for a in regf.node.args.args if a.arg != 'cls']
+    key_t = next((t for t in ast.walk(regf.node) if isinstance(t, ast.Tuple) and len(t.elts) == 3
+                  and all(isinstance(e, ast.Name) and e.id in rparams for e in t.elts)), None)
+    ctx.need(key_t is not None and len(rparams) == 3, regf.qualname, 'registry key tuple not found')
+    fmt_pos = [e.id for e in key_t.elts].index(rparams[2])
+    loopvars = {t.id for n_ in ast.walk(idf.node) if isinstance(n_, ast.For) for t in ast.walk(n_.target) if isinstance(t, ast.Name)}
+    picks = [st.value for st in ast.walk(idf.node) if isinstance(st, ast.Assign) and isinstance(st.value, ast.Subscript)
+             and isinstance(st.value.value, ast.Name) and st.value.value.id in loopvars]
+    ctx.need(picks, idf.qualname, 'no `<key>[i]` selection of the format found')
+    wrong = [p_ for p_ in picks if not (isinstance(p_.slice, ast.Constant) and p_.slice.value in (fmt_pos, fmt_pos - 3))]
+    if wrong:
+        ctx.bad(idf.qualname + ':format element', 'key-position',
+                f'identify_format takes `{norm(wrong[0])}` of the matching registry key; register() builds keys as '
+                f'({", ".join(e.id for e in key_t.elts)}), so the format is element {fmt_pos}', idf.loc(wrong[0]))
+    else:
+        ctx.ok(idf.qualname + ':format element', f'the format is element {fmt_pos} of the key, as register() builds it')
     for name, path_idx in (('read', 0), ('write', 1)):
         fi = m.method(reg, name)
         fn = fi.node
@@ -877,11 +924,11 @@ RULES = [
     RuleDef('R1', 'lexists guard dominates every destination-creating call', r1, 3),
     RuleDef('R2', 'serialisation dominates open; no repo code after open', r2, 3),
     RuleDef('R3', 'overwrite parameter default False, read and forwarded', r3, 6),
-    RuleDef('R4', 'identifier extension/signature tables agree with writers', r4, 6),
+    RuleDef('R4', 'identifier extension/signature tables agree with writers and with the documented extensions', r4, 9),
     RuleDef('R4b', 'identifier semantics (symbolic): write/read/other-method outcomes', r4b, 3),
     RuleDef('R4c', 'FITS table is written under the extension name the reader looks for', r4c, 1),
     RuleDef('R5', 'registry raises IORegistryError for unknown/unidentified formats; identifier selection', r5, 7),
-    RuleDef('R5b', 'format inference is asked with (path, class, method) in the identifiers\' roles', r5b, 3),
+    RuleDef('R5b', 'format inference is asked with (path, class, method) in the identifiers\' roles; format element of the key', r5b, 4),
     RuleDef('R7', 'dispatch layer never creates, removes or renames the destination', r7, 3),
     RuleDef('R6', 'identification and I/O keep no state between calls (C13.R2 on registry/io)', r6, 1),
 ]
